@@ -279,7 +279,10 @@ func (g *gen) packetVariants() {
 				reject(x(t, sigLine(edit(tagOff, p[tagOff]^0x80)), k), an+"-hash-tag")
 				reject(x(t, sigLine(edit(tagOff+1, p[tagOff+1]^1)), k), an+"-hash-tag")
 				for off := tagOff + 2; off < len(p); off += 1 + g.r.R.Intn(7) {
-					reject(x(t, sigLine(edit(off, p[off]^(1<<uint(g.r.R.Intn(8))))), k), an+"-mpi-bit")
+					// a flipped bit in an MPI's bit-count prefix may leave the number unchanged (the signature
+					// then is still the named key's over BP): judged by the general oracle of vop only
+					vi := x(t, sigLine(edit(off, p[off]^(1<<uint(g.r.R.Intn(8))))), k)
+					r.Hit("packet:" + an + "-mpi-bit:" + vi.class)
 				}
 			}
 		}
